@@ -422,6 +422,9 @@ func (c *canonCtx) skeleton(e cypher.Expression) *bnode {
 				n.kids = kept
 			}
 		}
+		if len(n.kids) == 1 {
+			return n.kids[0] // a one-element list means its element (and is emitted as such)
+		}
 		return n
 	}
 	switch t := e.(type) {
@@ -601,10 +604,6 @@ func linearise(n *bnode, d deviations, out *[]token) {
 		grouped(func() { linearise(n.kids[0], d, out) })
 	case bNot:
 		k := n.kids[0]
-		if d.notNotAsNot && k.kind == bNot {
-			linearise(k, d, out) // this NOT is swallowed
-			return
-		}
 		*out = append(*out, token{op: "not"})
 		if k.connective() && len(k.kids) > 1 && !d.listUnderNot {
 			grouped(func() { linearise(k, d, out) })
@@ -750,6 +749,17 @@ func reading(n *bnode, d deviations, index map[string]int) *expr {
 			toks = append(toks, token{op: "atom", atom: a})
 		}
 		toks = append(toks, token{op: ")"})
+	}
+	if d.notNotAsNot {
+		// the text `not not x` is read back as one negation: runs of NOT tokens collapse
+		kept := toks[:0:0]
+		for i, t := range toks {
+			if t.op == "not" && i > 0 && toks[i-1].op == "not" {
+				continue
+			}
+			kept = append(kept, t)
+		}
+		toks = kept
 	}
 	p := &tparser{toks: toks, index: index}
 	e := p.parseOr()
